@@ -1081,6 +1081,9 @@ func bPut(intp *Interpreter) error {
 		if !ok {
 			return intp.e(eTypecheck, "put: invalid value")
 		}
+		if c < 0 || c > 255 {
+			return intp.e(eRangecheck, "put: value %d out of range", c)
+		}
 		obj[index] = byte(c)
 	default:
 		return intp.e(eTypecheck, "put: invalid argument type %T", obj)
